@@ -27,7 +27,15 @@ type crashCfg struct {
 	fatalIsOK  map[string]string                    // "<function>|<construct>" for panic/log.Fatal sites excepted with reason
 	assertOK   func(*ssa.TypeAssert) (bool, string) // property-specific discharge of unchecked assertions
 	sliceOK    func(*ssa.Slice) (bool, string)      // property-specific discharge of slice bounds the fact engine leaves open
+	fatalOK    func(ssa.Instruction) (bool, string) // property-specific exception of a panic/fatal site, decided by role (listed as assumed)
 	noCompiler bool                                 // engine fixture: every bounds site goes to the fact engine
+}
+
+func (cfg crashCfg) fatalOKAt(kind string, in ssa.Instruction) (bool, string) {
+	if cfg.fatalOK == nil || (kind != "panic" && kind != "fatal") {
+		return false, ""
+	}
+	return cfg.fatalOK(in)
 }
 
 // compilerUnproven runs the compiler's bounds-check report for the packages and returns the set
@@ -377,6 +385,9 @@ func crashInventory(c *Ctx, r *Report, cfg crashCfg) crashStats {
 				st.Assumed++
 			} else if excKey, excWhy := inh.exception(cfg.fatalIsOK, fn, kind, construct, instr.Pos()); excWhy != "" {
 				usedExc[excKey] = true
+				o.Assume("excepted: %s", excWhy)
+				st.Assumed++
+			} else if excOK, excWhy := cfg.fatalOKAt(kind, instr); excOK {
 				o.Assume("excepted: %s", excWhy)
 				st.Assumed++
 			} else {
